@@ -12,5 +12,6 @@ CONSTANTS
   Seeks <- SKt
   Pages <- PGt
   MaxFail = 0
+  StoreRemoves = TRUE
 INVARIANT ModelProps
 CHECK_DEADLOCK FALSE
